@@ -733,6 +733,7 @@ func genFRMut(w *bufio.Writer, thorough bool, r *Rng) {
 func genFRTrunc(w *bufio.Writer, thorough bool, r *Rng) {
 	poolLines(w, r)
 	legacyTwoBlocks(w, r)
+	reuseLines(w, r, 2) // among them: a trailer cut short, then the Reader is reused
 	n := 14
 	if thorough {
 		n = 400
